@@ -125,19 +125,23 @@ func createPresignedHttpRequestFromCtx(ctx *fiber.Ctx, signedHdrs []string, cont
 		body = bytes.NewReader(req.Body())
 	}
 
-	uri := string(ctx.Request().URI().Path())
-	uri = httpbinding.EscapePath(uri, false)
+	// the path that is verified is the path the request is routed by
+	uri := httpbinding.EscapePath(ctx.Path(), false)
 	isFirst := true
 
 	ctx.Request().URI().QueryArgs().VisitAll(func(key, value []byte) {
 		_, ok := signedQueryArgs[string(key)]
 		if !ok {
+			// keys are escaped like values: a decoded "#", "&" or "=" in a
+			// key would otherwise cut the query that is verified short of
+			// the query the handlers see
+			escapeKey := url.QueryEscape(string(key))
 			escapeValue := url.QueryEscape(string(value))
 			if isFirst {
-				uri += fmt.Sprintf("?%s=%s", key, escapeValue)
+				uri += fmt.Sprintf("?%s=%s", escapeKey, escapeValue)
 				isFirst = false
 			} else {
-				uri += fmt.Sprintf("&%s=%s", key, escapeValue)
+				uri += fmt.Sprintf("&%s=%s", escapeKey, escapeValue)
 			}
 		}
 	})
